@@ -83,6 +83,11 @@ def run(chk):
     # liquid dynamic == solid dynamic with mu -> 0 restricted to (y1,y2,y5,y6) after eliminating y3 (y4 = 0): checked through the reference construction (ts72) -- the
     # reference liquid system is itself the mu -> 0 reduction; see oracle docstring.
 
+    # ---- R01.7 sibling implementation (interpreted solver package): same reference systems
+    from . import legacy_solver
+    legacy_solver.derivatives(chk, repo, d, 'R01.7')
+    legacy_solver.dispatch(chk, repo, d, 'R01.7')
+    chk.floor('R01.7', 8 + 184 + 8)
     # ---- R01.3 dispatch agreement
     dispatch(chk, repo, mo, mats)
     # ---- R01.5 Love extraction
